@@ -1101,15 +1101,31 @@ func c20r5(p *Program, r *Report) {
 		if !ok || listParam == nil {
 			return false
 		}
-		lenE := &ast.CallExpr{Fun: ast.NewIdent("len"), Args: []ast.Expr{ast.NewIdent(listParam.Name())}}
-		if v, known := f.Known(&ast.BinaryExpr{X: lenE, Op: token.EQL, Y: &ast.BasicLit{Kind: token.INT, Value: "0"}}); known && v {
+		// the caller's list, or a local that starts as a copy of it
+		names := []string{listParam.Name()}
+		ast.Inspect(ap.Decl.Body, func(x ast.Node) bool {
+			if as, ok := x.(*ast.AssignStmt); ok && len(as.Lhs) == len(as.Rhs) {
+				for i, rhs := range as.Rhs {
+					if isIdentOf(ainfo, rhs, listParam) {
+						if id, isId := as.Lhs[i].(*ast.Ident); isId && id.Name != "_" {
+							names = append(names, id.Name)
+						}
+					}
+				}
+			}
 			return true
-		}
-		if v, known := f.Known(&ast.BinaryExpr{X: &ast.BasicLit{Kind: token.INT, Value: "0"}, Op: token.LSS, Y: lenE}); known && !v {
-			return true
-		}
-		if v, known := f.KnownStr(listParam.Name() + " == nil"); known && v {
-			return true
+		})
+		for _, nm := range names {
+			lenE := &ast.CallExpr{Fun: ast.NewIdent("len"), Args: []ast.Expr{ast.NewIdent(nm)}}
+			if v, known := f.Known(&ast.BinaryExpr{X: lenE, Op: token.EQL, Y: &ast.BasicLit{Kind: token.INT, Value: "0"}}); known && v {
+				return true
+			}
+			if v, known := f.Known(&ast.BinaryExpr{X: &ast.BasicLit{Kind: token.INT, Value: "0"}, Op: token.LSS, Y: lenE}); known && !v {
+				return true
+			}
+			if v, known := f.KnownStr(nm + " == nil"); known && v {
+				return true
+			}
 		}
 		return false
 	}
